@@ -2907,7 +2907,13 @@ func init() {
 				path := filepath.Join(ffdir, fmt.Sprintf("%s-2026010100000%d-1.fail", name, k))
 				var data []byte
 				kind := ""
-				switch r.intn(9) {
+				switch r.intn(11) {
+				case 9:
+					_ = os.Symlink(filepath.Join(ffdir, "does-not-exist"), path) // listed by the glob, cannot be opened
+					kind = "dangling-symlink"
+				case 10:
+					_ = os.Symlink(path, path) // a symlink to itself
+					kind = "symlink-loop"
 				case 0:
 					kind = "empty"
 				case 1:
@@ -2935,7 +2941,7 @@ func init() {
 					_ = os.Mkdir(path, 0o775) // a directory with a matching name: unreadable as a file
 					kind = "directory"
 				}
-				if kind != "directory" {
+				if kind != "directory" && !strings.Contains(kind, "symlink") {
 					_ = os.WriteFile(path, data, 0o644)
 				}
 				kinds = append(kinds, kind)
